@@ -4,18 +4,83 @@
   diffs the two streams.
 -/
 import Pdt.Driver.Codec
+import Pdt.Driver.ProgCodec
 import Pdt.Model.Resolve
+import Pdt.Model.Verbs
 import Pdt.Gen.OpTable
 import Pdt.Gen.Casts
 
 open Lean Pdt
 
-def findOp (attr : String) : Option OpDecl := Gen.opTable.find? (·.attr == attr)
-
 def lcaText : LcaResult → String
   | .ok d => "ok " ++ d.toText
   | .dataTypeError => "DataTypeError"
   | .internalError => "internal"
+
+def ftypeText : Ftype → String
+  | .elementWise => "element_wise" | .aggregate => "aggregate" | .window => "window"
+
+def backendOf : String → Backend
+  | "polars" => .polars | "sqlite" => .sqlite | "postgres" => .postgres | "mssql" => .mssql | _ => .otherSql
+
+def backendText : Backend → String
+  | .polars => "polars" | .sqlite => "sqlite" | .postgres => "postgres" | .mssql => "mssql" | .otherSql => "sql"
+
+def cacheJson (c : Cache) : Json :=
+  Json.mkObj [
+    ("visible", Json.arr (c.nameToUuid.map (fun e => Json.arr #[Json.str e.1, Json.num e.2])).toArray),
+    ("uuid_to_name", Json.arr (c.uuidToName.map (fun e => Json.arr #[Json.num e.1, Json.str e.2])).toArray),
+    ("cols", Json.arr (c.cols.map (fun e => Json.arr #[Json.num e.1, Json.str e.2.name, Json.str e.2.dtype.toText, Json.str (ftypeText e.2.ftype)])).toArray),
+    ("partition_by", Json.arr (c.partitionBy.map (fun (u : Nat) => Json.num (u : Nat))).toArray),
+    ("limit", Json.num c.limit),
+    ("group_by", Json.arr (c.groupBy.map (fun (u : Nat) => Json.num (u : Nat))).toArray),
+    ("is_filtered", Json.bool c.isFiltered),
+    ("backend", Json.str (backendText c.backend)),
+    ("columns", Json.arr (c.columns.map Json.str).toArray),
+    ("n_derived", Json.num c.derivedFrom.length)]
+
+/-- run a program through the front-end model; one observation object per statement -/
+def runProgram (backend : Backend) (prog : Json) : Except String Json := do
+  let tables ← (← prog.getObjVal? "tables").getArr?
+  let stmts ← (← prog.getObjVal? "stmts").getArr?
+  let mut env : Env := {}
+  let mut out : Array Json := #[]
+  for st in stmts do
+    let id ← (← st.getObjVal? "id").getStr?
+    let op ← (← st.getObjVal? "op").getStr?
+    let base : List (String × Json) := [("id", Json.str id), ("op", Json.str op)]
+    if op == "source" then
+      let tname ← (← st.getObjVal? "table").getStr?
+      let some tj := tables.find? (fun t => (t.getObjValAs? String "name").toOption == some tname)
+        | throw s!"unknown table {tname}"
+      let cols ← (← tj.getObjVal? "cols").getArr?
+      let (uids, env1) := env.freshUids cols.size
+      let (nid, env2) := env1.freshNode
+      let schema ← (cols.toList.zip uids).mapM (fun (cu : Json × Uid) => do
+        let n ← (← cu.1.getObjVal? "name").getStr?
+        let d ← Codec.dtypeOfText (← (← cu.1.getObjVal? "dtype").getStr?)
+        pure (n, cu.2, d))
+      let t : Tbl := ⟨.source nid tname schema backend, Cache.ofSource nid schema backend⟩
+      env := env2.bind id t
+      out := out.push (Json.mkObj (base ++ [("outcome", Json.str "ok"), ("cache", cacheJson t.cache)]))
+    else if op == "export" || op == "build_query" || op == "expr" then
+      out := out.push (Json.mkObj (base ++ [("outcome", Json.str "n/a")]))
+    else
+      let src ← (← st.getObjVal? "src").getStr?
+      let needs := [some src, Codec.optStr st "right"].filterMap (fun x => x)
+      if needs.any (fun v => (env.table? v).isNone) then
+        out := out.push (Json.mkObj (base ++ [("outcome", Json.str "skipped")]))
+      else
+        match Codec.verbOfJson op st with
+        | .error e => out := out.push (Json.mkObj (base ++ [("outcome", Json.str "unsupported"), ("why", Json.str e)]))
+        | .ok call =>
+          match applyVerb env src call with
+          | .ok (t, env1) =>
+              env := env1.bind id t
+              out := out.push (Json.mkObj (base ++ [("outcome", Json.str "ok"), ("cache", cacheJson t.cache)]))
+          | .error e =>
+              out := out.push (Json.mkObj (base ++ [("outcome", Json.str "error"), ("exc", Json.str e.toText)]))
+  pure (Json.arr out)
 
 def handle (j : Json) : Except String String := do
   let cmd ← j.getObjValAs? String "cmd"
@@ -39,6 +104,10 @@ def handle (j : Json) : Except String String := do
   | "lca" =>
       let args ← (← (← j.getObjVal? "args").getArr?).toList.mapM Codec.dtypeOfJson
       pure (lcaText (lcaType args))
+  | "program" =>
+      let b ← j.getObjValAs? String "backend"
+      let r ← runProgram (backendOf b) (← j.getObjVal? "program")
+      pure r.compress
   | _ => throw s!"unknown cmd {cmd}"
 
 partial def loop (h : IO.FS.Stream) (out : IO.FS.Stream) : IO Unit := do
